@@ -375,9 +375,9 @@ def run(ctx: Ctx) -> None:
 
     base = scratch_dir("c03")
     tables = prepare_tables(base)
-    combos = [("create", 0), ("append", 1), ("append", 0), ("append", 2), ("multi", 1), ("delete", 2), ("expire", 2), ("deletesnap", 2), ("gc", 2)]
+    combos = [("create", 0), ("append", 1), ("append", 0), ("append", 2), ("multi", 1), ("delete", 2), ("replace", 2), ("expire", 2), ("deletesnap", 2), ("gc", 2)]
     if not quick:
-        combos += [("multi", 0), ("multi", 2), ("delete", 1), ("expire", 1), ("deletesnap", 1), ("gc", 0), ("gc", 1)]
+        combos += [("multi", 0), ("multi", 2), ("delete", 1), ("replace", 1), ("expire", 1), ("deletesnap", 1), ("gc", 0), ("gc", 1)]
 
     # dry runs: step count, the (phase, call) of every step, and the POST state
     plans: List[Tuple[str, int, Optional[str], Dict[str, Any], Dict[str, Any], Dict[str, Any], List[Tuple[str, str]]]] = []
